@@ -2,7 +2,7 @@
 traces of generated lifecycle programs, plain build)."""
 from vf import gen, corecheck as cc, framework as fw, model_lifecycle
 
-RULE = ("pause_others_in_batch profile: 3-5 modules with mail in one poll batch, the handler served first pauses / stops / deregisters all the others. lifecycle profile: 2-6 modules with random names/hook sets, scripted eval/start results (incl. false evaluations ahead "
+RULE = ("start_refused_by_source profile: the start of an IDLE / STOPPED module fails because one of its sources (a regular file) cannot be polled - the refused call changes nothing. pause_others_in_batch profile: 3-5 modules with mail in one poll batch, the handler served first pauses / stops / deregisters all the others. lifecycle profile: 2-6 modules with random names/hook sets, scripted eval/start results (incl. false evaluations ahead "
         "of true ones in table order), every lifecycle call from outside the loop, between dispatches and re-entrantly from "
         "eval/start/stop/event callbacks, late registrations, poison pills; both driving modes plus the dispatch-only style where "
         "steps run between m_ctx_dispatch() calls (every such call ends with an evaluation pass). The oracle walks the dense "
@@ -32,7 +32,7 @@ def run(tier):
             cases.append(c)
 
     for k in range(16 if tier == "quick" else 400):
-        for g, prof in ((gen.gen_restart_while_leaving, "restart_while_leaving"), (gen.gen_paused_with_batch_at_quit, "paused_with_batch_at_quit")):
+        for g, prof in ((gen.gen_restart_while_leaving, "restart_while_leaving"), (gen.gen_paused_with_batch_at_quit, "paused_with_batch_at_quit"), (gen.gen_start_refused_by_source, "start_refused_by_source")):
             c = cc.Case()
             c.sc, c.profile, c.mode, c.seed = g(seed * 1000 + k), prof, ("loop" if k % 2 else "dispatch"), seed * 1000 + k
             cases.append(c)
